@@ -64,13 +64,13 @@ static const char *all_keyword[] = {
 	"MIN", "MINIMUM", "MINIMIZE",
 	"MAX", "MAXIMUM", "MAXIMIZE",
 	"SUBJECT", "ST", "PROBLEM", "PROB",
-	"BOUNDS", "BOUND", "INTEGER", "END", NULL
+	"BOUNDS", "BOUND", "INTEGER", "INT", "END", NULL
 };
 static int all_keyword_len[] = {
 	3, 7, 8,
 	3, 7, 8,
 	7, 2, 7, 4,
-	6, 5, 7, 3, -1
+	6, 5, 7, 3, 3, -1
 };
 
 int EGLPNUM_TYPENAME_ILLread_lp_state_init (
